@@ -44,7 +44,9 @@ def _model(ctx, R):
     body frames, its step events (data item, error item, end) and its cap / running-count vocabulary.  Fails closed."""
     from .core import AnchorLost
     try:
-        return L.stream_model(ctx.ds)
+        # (normalised view: `.map_err(f)?`, `match`, let-else and spliced async helpers read as one program, and the error
+        # constructors of map_err closures / helper fns stand in the stream coroutine itself)
+        return L.stream_model(ctx.dsn)
     except L.ModelLost as e:
         ctx.lost(R, str(e))
         raise AnchorLost(str(e))
@@ -62,8 +64,10 @@ def r1_cap_before_delivery(ctx):
     cap_ok, cap_detail = m.cap_source()
     ctx.check(R, "cap-upvar-is-self.cap", cap_ok, cap_detail, top)
     for ev in data:
-        sbb, ssl = ev.bb, ev.sl
-        into_bbs = set(b for _, b, _ in ssl.calls(L.INTO_DATA))
+        sbb = ev.bb
+        # where the delivered payload comes from (variant-precise: the Ok payload of Frame::into_data, through whatever wrappers)
+        from_into = [o for o in ev.origins if o.root[0] == "call" and re.search(L.INTO_DATA, o.root[2])]
+        into_bbs = set(o.root[3] for o in from_into)
         guards = m.cap_guards(into_bbs)
         key = "data-send"
         if not guards:
@@ -84,9 +88,11 @@ def r1_cap_before_delivery(ctx):
         ctx.check(R, key + ":len-is-length-of-sent-payload", gd["len_ok"], "the compared `len` is Bytes::len of the same Frame::into_data payload that is sent: %s" % gd["len_ok"], (g, sbb))
         ok_acc, detail = m.accumulates(gd, ev)
         ctx.check(R, key + ":bytes_read-accumulates", ok_acc, detail, (g, sbb))
-        # payload sent unmodified
-        badp = callee_allow(ssl, PLUMBING + [r"Frame::<T>::into_data$", r"BodyExt::frame$", r"Result::<T, E>::map_err$"])
-        ctx.check(R, key + ":payload-unmodified", not badp and bool(into_bbs), "callees between Frame::into_data and the send: %s" % ([b[0] for b in badp] or "none"), (g, sbb))
+        # payload sent unmodified: every value the item can be is the Ok payload of Frame::into_data itself, and the frame handed to into_data is what BodyExt::frame produced
+        whole = bool(ev.origins) and len(from_into) == len(ev.origins) and all(o.npath() == ["+", "0"] and not o.calls for o in from_into)
+        badp = [b for o in from_into for b in callee_allow(g.slice(o.root[4]["args"][0]), PLUMBING + [r"BodyExt::frame$", r"Result::<T, E>::map_err$"])]
+        ctx.check(R, key + ":payload-unmodified", whole and not badp, "the delivered item is the data payload of Frame::into_data itself: %s (its sources: %s); callees between BodyExt::frame and into_data: %s" % (
+            whole, [repr(o) for o in ev.origins][:4], sorted(set(b[0] for b in badp)) or "none"), (g, sbb))
 
 
 def r2_refusal_final(ctx):
@@ -95,41 +101,26 @@ def r2_refusal_final(ctx):
     top, g = m.top, m.g
     data = [e.bb for e in m.data]
     errs = [(e.bb, e.sl) for e in m.errs]
-    n = 0
-    for wbb, wt in g.switches():
-        cmp = comparison_of(g, wbb)
-        if not cmp:
+    into_bbs = set(o.root[3] for e in m.data for o in e.origins if o.root[0] == "call" and re.search(L.INTO_DATA, o.root[2]))
+    guards = m.cap_guards(into_bbs)
+    st400 = status_const_of_ctor(ctx.ds, "for_bad_request")
+    for gd in guards:
+        wbb, rej = gd["bb"], gd["other"]
+        if rej is None:
+            ctx.check(R, "refusal-delivers-nothing", False, "the comparison with the cap has no refusing edge", (g, wbb))
             continue
-        for rel, x, y, edge in normalise_le(cmp):
-            if rel != "le":
-                continue
-            xs = g.slice(x)
-            if not (xs.has_call(r"bytes::Bytes::len$") and any(a[0] == "binop" and a[1].startswith("Add") for a in xs.atoms)):
-                continue
-            n += 1
-            other = "false" if edge == "true" else "true"
-            rej = cmp[other]
-            reach = g.reachable(rej)
-            ctx.check(R, "refusal-delivers-nothing", not any(d in reach for d in data), "data sends reachable from the refusing edge: %s" % [d for d in data if d in reach], (g, wbb))
-            err_blocks = [bb for bb, sl in errs]
-            ok = bool(err_blocks) and g.must_pass(err_blocks, start=rej)
-            ctx.check(R, "refusal-always-errors", ok, "every path from the refusing edge to the coroutine's return passes an error send: %s" % ok, (g, wbb))
-            # the errors on that path are 400s
-            allerr = True
-            for bb, sl in errs:
-                if bb in reach:
-                    names = [c for c in sl.callee_names() if c.startswith("error::HttpError::for_")]
-                    cl_ok = True
-                    for c, cb, ct in sl.calls(r"Result::<T, E>::map_err$"):
-                        for h, node in closure_args_of_call(g, ct):
-                            hs = h.slice({"l": 0, "p": []})
-                            if not hs.has_call(r"^error::HttpError::for_bad_request$"):
-                                cl_ok = False
-                    if any(nm != "error::HttpError::for_bad_request" for nm in names) or not cl_ok:
-                        allerr = False
-            st = status_const_of_ctor(ctx.ds, "for_bad_request")
-            ctx.check(R, "refusal-is-400", allerr and st == {400}, "error sends reachable from the refusing edge are all for_bad_request=%s (status %s)" % (allerr, sorted(st or [])), (g, wbb))
-    if n == 0:
+        reach = g.reachable(rej)
+        ctx.check(R, "refusal-delivers-nothing", not any(d in reach for d in data), "data sends reachable from the refusing edge: %s" % [d for d in data if d in reach], (g, wbb))
+        err_blocks = [bb for bb, sl in errs]
+        ok = bool(err_blocks) and g.must_pass(err_blocks, start=rej)
+        ctx.check(R, "refusal-always-errors", ok, "every path from the refusing edge to the coroutine's return passes an error send: %s" % ok, (g, wbb))
+        # the errors on that path are 400s: every value such an error item can be is the result of for_bad_request
+        there = [e for e in m.errs if e.bb in reach]
+        built = [o for e in there for o in e.origins]
+        allerr = all(e.origins for e in there) and all(o.root[0] == "call" and re.search(r"^error::HttpError::for_bad_request$", o.root[2]) for o in built)
+        ctx.check(R, "refusal-is-400", allerr and st400 == {400}, "error items reachable from the refusing edge are all built by for_bad_request=%s (%s; status %s)" % (
+            allerr, sorted(set(repr(o) for o in built)), sorted(st400 or [])), (g, wbb))
+    if not guards:
         ctx.lost(R, "the cap comparison in the stream coroutine")
 
 
@@ -142,6 +133,12 @@ def r3_cap_provenance(ctx):
     ctx.check(R, "aggregate-sites", len(sites) >= 2, "aggregate sites of StreamingBody: %s" % sorted(f.id for f, _, _ in sites), nontrivial=False)
     fields = [x["name"] for x in ctx.ds.adts["extractor::body::StreamingBody"]["variants"][0]["fields"]]
     ci = fields.index("cap")
+
+    def from_bytes_exception(f, bb, s):
+        ok = s.has_call(r"bytes::Bytes::len$") and s.params() == [1] and not callee_allow(s, PLUMBING + [r"bytes::Bytes::len$"])
+        ctx.check(R, "cap-source:__from_bytes", ok, "doc(hidden) test helper: cap = data.len() of its own in-memory buffer (listed exception, not on the request path): %s" % ok, (f, bb))
+        cs_ = callers(ctx.ds, r"StreamingBody::__from_bytes$")
+        ctx.check(R, "__from_bytes-not-called-in-crate", not cs_, "callers inside the crate: %s" % [c.id for c, _, _ in cs_], (f, bb))
     for f, bb, st in sites:
         capop = st["rv"]["ops"][ci]
         s = f.slice(capop)
@@ -153,14 +150,15 @@ def r3_cap_provenance(ctx):
             ctx.check(R, "callers-of-new", len(cs) >= 2, "callers of StreamingBody::new: %s" % sorted(set(c.id for c, _, _ in cs)), nontrivial=False)
             for c, cbb, ct in cs:
                 a = c.slice(ct["args"][1])
+                if re.search(r"StreamingBody::__from_bytes$", c.id):
+                    # the listed exception, written through the constructor instead of a struct literal
+                    from_bytes_exception(c, cbb, a)
+                    continue
                 bad = callee_allow(a, PLUMBING + [r"RequestContext::<Context>::request_body_max_bytes$"])
                 ctx.check(R, "cap-arg-of-new:%s" % c.id.split("::{closure")[0], a.has_call(r"RequestContext::<Context>::request_body_max_bytes$") and not bad and not any(x[0] == "binop" for x in a.atoms),
                           "cap argument = request_body_max_bytes() unmodified: callees %s" % a.callee_names(), (c, cbb))
         elif re.search(r"__from_bytes$", name):
-            ok = s.has_call(r"bytes::Bytes::len$")
-            ctx.check(R, "cap-source:__from_bytes", ok, "doc(hidden) test helper: cap = data.len() of an in-memory buffer (listed exception, not on the request path)", (f, bb))
-            cs = callers(ctx.ds, r"StreamingBody::__from_bytes$")
-            ctx.check(R, "__from_bytes-not-called-in-crate", not cs, "callers inside the crate: %s" % [c.id for c, _, _ in cs], (f, bb))
+            from_bytes_exception(f, bb, s)
         else:
             bad = callee_allow(s, PLUMBING + [r"RequestContext::<Context>::request_body_max_bytes$"])
             ok = s.has_call(r"RequestContext::<Context>::request_body_max_bytes$") and not bad and not any(x[0] == "binop" for x in s.atoms)
@@ -301,8 +299,13 @@ def r6_only_counted_bytes_refuse(ctx):
                  "self.cap whose other side is the counted total (bytes_read + len) or a sound lower bound of the remaining length (SizeHint::lower / exact)", floor=3)
     m = _model(ctx, R)
     top, g = m.top, m.g
-    errs = [(e.bb, e.node, e.sl) for e in m.errs]
-    ctx.check(R, "error-sends", len(errs) >= 3, "error items in the stream coroutine [%s form]: %d" % (m.form, len(errs)), g)
+    # one instance per value an error item can be (the constructor call that built it, found variant-precisely through
+    # helpers, `?`, map_err and match arms), not per send site: `Err(self.refuse().await)?` is one send of two errors
+    errs = []
+    for e in m.errs:
+        for o in (e.origins or [None]):
+            errs.append((e, o, o.root[3] if o is not None and o.root[0] == "call" else e.bb))
+    ctx.check(R, "error-sends", len(errs) >= 3, "errors the stream coroutine can emit [%s form]: %d (%s)" % (m.form, len(errs), sorted(set(repr(o) for _, o, _ in errs))), g)
     # every comparison against cap in the coroutine
     mentions_cap = m.mentions_cap
     guards = []
@@ -320,22 +323,30 @@ def r6_only_counted_bytes_refuse(ctx):
         sound_hint = bool(hint_calls) and all(c.endswith("SizeHint::lower") or c.endswith("SizeHint::exact") or c.endswith("::size_hint") or "Option::<T>::unwrap_or" in c for c in hint_calls) \
             and not any(c.endswith("SizeHint::upper") for c in hint_calls) and (os_.has_call(r"SizeHint::lower$") or os_.has_call(r"SizeHint::exact$"))
         guards.append({"bb": wbb, "true": cmp["true"], "false": cmp["false"], "counted": counted, "sound_hint": sound_hint, "names": os_.callee_names()})
-    for bb, t, sl in errs:
+    splits = L.failure_splits(g)
+    for e, o, obb in errs:
+        bb = e.bb
         dom = []
         for gd in guards:
             for edge in ("true", "false"):
-                if gd[edge] is not None and g.edge_dominates(gd["bb"], gd[edge], bb):
+                if gd[edge] is not None and (g.edge_dominates(gd["bb"], gd[edge], bb) or g.edge_dominates(gd["bb"], gd[edge], obb)):
                     dom.append(gd)
-        propagated = sl.has_call(r"BodyExt::frame$|http_util::http_dump_body$") or (sl.has_call(r"Result::<T, E>::map_err$") and not any(a[0] == "agg" and a[1] == "std::result::Result" and a[2] == "Err" and False for a in sl.atoms))
-        is_prop = sl.has_call(r"BodyExt::frame$|http_util::http_dump_body$|Result::<T, E>::map_err$|FromResidual::from_residual$") and not sl.has_call(r"^error::HttpError::for_") 
         bad = [gd for gd in dom if not (gd["counted"] or gd["sound_hint"])]
         if dom:
             ctx.check(R, "refusal-cause", not bad,
-                      "error send guarded by %d comparison(s) with cap; all on counted bytes or a sound lower bound: %s%s" % (
-                          len(dom), not bad, ("" if not bad else " — refusal decided from %s, which is not a lower bound of the body length (an undeclared length would always be refused)" % [c for c in bad[0]["names"] if "ize" in c or "unwrap" in c])), (g, bb))
+                      "error %s guarded by %d comparison(s) with cap; all on counted bytes or a sound lower bound: %s%s" % (
+                          repr(o) if o is not None else "item", len(dom), not bad,
+                          ("" if not bad else " — refusal decided from %s, which is not a lower bound of the body length (an undeclared length would always be refused)" % [c for c in bad[0]["names"] if "ize" in c or "unwrap" in c])), (g, obb))
         else:
-            ctx.check(R, "refusal-cause", is_prop or sl.has_call(r"Result::<T, E>::map_err$"),
-                      "error send outside any cap comparison is the propagation of a frame/drain failure: %s" % (is_prop or sl.has_call(r"Result::<T, E>::map_err$")), (g, bb))
+            # not decided by the cap: the error is built (or sent) on the failure side of reading the body — the Err case of a
+            # frame / of draining the rest —, or it is that failure itself passed on
+            on_fail = [sp for sp in splits if sp["err"] is not None and (g.edge_dominates(sp["switch_bb"], sp["err"], obb) or g.edge_dominates(sp["switch_bb"], sp["err"], bb))]
+            passed_on = o is not None and o.root[0] == "call" and re.search(r"Future::poll$", o.root[2]) is not None and \
+                g.slice(o.root[4]["args"][0]).has_call(L.FRAME + "|" + L.DUMP) and o.npath()[-2:] == ["-", "0"]
+            is_prop = bool(on_fail) or passed_on
+            ctx.check(R, "refusal-cause", is_prop,
+                      "error %s outside any cap comparison is the propagation of a frame/drain failure: %s (built on the Err case of %s)" % (
+                          repr(o) if o is not None else "item", is_prop, sorted(set(sp["kind"] for sp in on_fail)) or ("the failure itself" if passed_on else "nothing")), (g, obb))
 
 
 def r7_frame_errors_are_errors(ctx):
@@ -344,13 +355,16 @@ def r7_frame_errors_are_errors(ctx):
     from .lib import result_split, http_error_ctors_on_error_path
     R = ctx.rule("C11.R7", "a failed body frame (truncated or corrupt framing) never ends the body stream silently: its Err case always emits an error item built by "
                  "for_bad_request before the stream can end, and delivers no further data", floor=3)
+    from .lib_c10 import path_states
     m = _model(ctx, R)
     top, g = m.top, m.g
     data = [e.bb for e in m.data]
     err_blocks = [e.bb for e in m.errs]
+    # where a frame's Result is split into Ok / Err: by the scrutinee's origin (the output of awaiting BodyExt::frame, however
+    # deeply it is matched: `Some(Err(e)) =>`), and — for a Result bound to a local first — by following the local (`.map_err(..)?`, match, let-else)
+    splits = [sp for sp in L.failure_splits(g) if sp["kind"] == "frame"]
+    seen_sw = set(sp["switch_bb"] for sp in splits)
     frame_results = [l for l, ty in enumerate(g.raw["locals"]) if re.match(r"^std::result::Result<hyper::body::Frame<", ty)]
-    splits = []
-    seen_sw = set()
     for l in frame_results:
         sp = result_split(g, l)
         if sp and sp["switch_bb"] not in seen_sw:
@@ -358,12 +372,24 @@ def r7_frame_errors_are_errors(ctx):
             splits.append(sp)
     ctx.check(R, "frame-result-is-examined", len(splits) >= 1, "places where the Result of a body frame is split into Ok/Err: %d" % len(splits), g)
     for sp in splits:
-        ok = bool(err_blocks) and g.must_pass(err_blocks, start=sp["err"])
+        if sp["err"] is None:
+            ctx.check(R, "frame-error-always-reported", False, "the Err case of a body frame has no edge of its own", (g, sp["switch_bb"]))
+            continue
+        # path-sensitive walk from the Err case (known variants of Result / Option / Poll values are followed through the joins left
+        # by spliced helpers): every way on ends at an error item, none at the end of the stream, and no data item is met before
+        states = path_states(g, sp["err"], marks={d: "data" for d in data}, stops=err_blocks)
+        if states is None:
+            ctx.lost(R, "the paths from the Err case of a body frame (state budget exceeded)")
+            continue
+        ends = [st_ for st_ in states if st_["kind"] == "return"]
+        ok = bool(err_blocks) and not ends and any(st_["kind"] == "stop" for st_ in states)
         ctx.check(R, "frame-error-always-reported", ok,
                   "every path from the Err case of a body frame to the end of the stream passes an error item: %s%s" % (ok, "" if ok else " — the stream can end as if the body were complete"), (g, sp["switch_bb"]))
-        reach = g.reachable(sp["err"], avoid=[b for b in err_blocks])
-        ctx.check(R, "frame-error-delivers-no-data", not any(d in reach for d in data), "no data item can follow a failed frame before the error item", (g, sp["switch_bb"]))
-        names = http_error_ctors_on_error_path(g, sp)
+        fed = [st_ for st_ in states if "data" in st_["marks"]]
+        ctx.check(R, "frame-error-delivers-no-data", not fed, "no data item can follow a failed frame before the error item", (g, sp["switch_bb"]))
+        # the error item(s) built on that side
+        built = [o for e in m.errs for o in e.origins if o.root[0] == "call" and g.edge_dominates(sp["switch_bb"], sp["err"], o.root[3])]
+        names = set(o.root[2] for o in built) | (http_error_ctors_on_error_path(g, sp) if "mappers" in sp else set())
         ctx.check(R, "frame-error-is-400", names == {"error::HttpError::for_bad_request"}, "constructors of the error item for a failed frame: %s" % (sorted(names) or "none"), (g, sp["switch_bb"]))
 
 
@@ -419,6 +445,30 @@ SELFTEST = [
      "edits": [("dropshot/src/extractor/body.rs", "                    if this.would_exceed_cap(bytes_read, len) {", "                    let total = bytes_read + len;\n                    if total > this.cap {"),
                ("dropshot/src/extractor/body.rs", "return Ok(Some((buf, (this, bytes_read + len))));", "let next = (this, total);\n                    return Ok(Some((buf, next)));")],
      "why": "try_unfold form: the compared sum is let-bound and reused as the carried count; the next state is let-bound"},
+    # the same rules over the stream split across async helpers, with the generator capturing the whole `self` (benign/C11-R9)
+    {"name": "helpers-boundary-off-by-one", "kind": "mutant", "patch": "benign/C11-R9/patch.diff",
+     "edits": [("dropshot/src/extractor/body.rs", "if self.cap < delivered + chunk_len {", "if self.cap <= delivered + chunk_len {")], "expect": ["C11.R1"],
+     "why": "async-helper form: a body of exactly the limit is refused; the `debug_assert!(delivered <= self.cap)` next to it is not the cap check"},
+    {"name": "helpers-frame-error-ends-stream", "kind": "mutant", "patch": "benign/C11-R9/patch.diff",
+     "edits": [("dropshot/src/extractor/body.rs",
+                "            Some(Err(read_error)) => {\n                return Err(HttpError::for_bad_request(\n                    None,\n                    format!(\"error streaming request body: {}\", read_error),\n                ))\n            }",
+                "            Some(Err(_read_error)) => return Ok(None),")], "expect": ["C11.R7"],
+     "why": "async-helper form: the helper that reads the next data frame reports a failed frame as the end of the body"},
+    {"name": "helpers-oversize-is-503", "kind": "mutant", "patch": "benign/C11-R9/patch.diff",
+     "edits": [("dropshot/src/extractor/body.rs", "            Ok(_ndropped) => HttpError::for_bad_request(\n                None,", "            Ok(_ndropped) => HttpError::for_unavail(\n                None,")], "expect": ["C11.R2"],
+     "why": "async-helper form: the refusal built by the spliced refuse_oversize() is a 503, not a 400"},
+    {"name": "helpers-cap-overwritten", "kind": "mutant", "patch": "benign/C11-R9/patch.diff",
+     "edits": [("dropshot/src/extractor/body.rs", "                let chunk_len = chunk.len();", "                let chunk_len = chunk.len();\n                self.cap = usize::MAX;")], "expect": ["C11.R1", "C11.R3"],
+     "why": "whole-self capture: the generator overwrites the cap of the StreamingBody it owns before comparing"},
+    {"name": "loop-invariant-asserted", "kind": "benign",
+     "edits": [("dropshot/src/extractor/body.rs", "                if bytes_read + len > self.cap {", "                debug_assert!(bytes_read <= self.cap);\n                if bytes_read + len > self.cap {")],
+     "why": "behaviour-preserving: the loop invariant stated as a debug assertion (a second comparison with the cap that is not the check)"},
+    {"name": "invariant-asserted-boundary-off-by-one", "kind": "mutant",
+     "edits": [("dropshot/src/extractor/body.rs", "                if bytes_read + len > self.cap {", "                debug_assert!(bytes_read <= self.cap);\n                if bytes_read + len >= self.cap {")], "expect": ["C11.R1"],
+     "why": "the asserted invariant `bytes_read <= cap` dominates the send with a `<=` edge but is not the comparison of bytes_read + len: the real check is strict"},
+    {"name": "test-helper-through-constructor", "kind": "benign",
+     "edits": [("dropshot/src/extractor/body.rs", "        let body = crate::Body::from(data);\n        Self { body, cap }", "        Self::new(crate::Body::from(data), cap)")],
+     "why": "behaviour-preserving: the doc(hidden) __from_bytes test helper (the listed cap exception) builds its value through StreamingBody::new"},
     {"name": "renamed-locals", "kind": "benign", "edits": [("dropshot/src/extractor/body.rs", "                let len = buf.len();\n\n                if bytes_read + len > self.cap {", "                let n = buf.len();\n                let len = n;\n\n                if bytes_read + len > self.cap {")], "why": "extra copy of len"},
 ]
 
